@@ -28,6 +28,7 @@ def base_specs(tier_quick, index, want=("c", "cpp", "py")):
     c = [dict(lang="c", name="c_any", flags=[]),
          dict(lang="c", name="c_little", flags=["--target-endianness", "little"]),
          dict(lang="c", name="c_big_noassert", flags=["--target-endianness", "big"], asserts=False),
+         dict(lang="c", name="c_ovr", flags=["--enable-override-variable-array-capacity"]),
          dict(lang="c", name="c_any_gcc", flags=[], kind="gcc")]
     cpp = [dict(lang="cpp", std="c++14", name="cpp14"),
            dict(lang="cpp", std="c++17-pmr", name="cpp17pmr"),
@@ -37,7 +38,8 @@ def base_specs(tier_quick, index, want=("c", "cpp", "py")):
     out = []
     i = index if isinstance(index, int) else 0
     if "c" in want:
-        out += [c[0], c[1 + i % 2]] if tier_quick else c
+        # quick: the fixed coverage corpus gets every option variant of C (cheap to build), random sets rotate through them
+        out += ([c[0], c[1], c[3]] if index == "corpus" else [c[0], c[1 + i % 3]]) if tier_quick else c
     if "cpp" in want:
         out += [cpp[0], cpp[1 + i % 3]] if tier_quick else cpp
     if "py" in want:
@@ -101,9 +103,9 @@ def ser_values(r, t, n, storage=True):
     vals = [("max", M.max_value(t)), ("min", M.min_value(t, 0)), ("min", M.min_value(t, 1))]
     for k in range(n):
         if storage:
-            vals.append(("rand", M.gen_value(r, t, in_range=not (k % 2), maxlen=r.choice([2, 6, 40]))))
+            vals.append(("rand", M.gen_value(r, t, in_range=not (k % 2), maxlen=r.choice([2, 6, 40, 40, 700]))))
         else:   # Python: scalars in range, integer array elements over the range of their NumPy dtype
-            vals.append(("rand", M.gen_value(r, t, in_range=True if k % 2 else "py", maxlen=r.choice([2, 6, 40]))))
+            vals.append(("rand", M.gen_value(r, t, in_range=True if k % 2 else "py", maxlen=r.choice([2, 6, 40, 40, 700]))))
     return vals
 
 
